@@ -113,3 +113,103 @@ pub fn length_data<'a, N: ToUsizeSpec, F: Fn(&'a [u8]) -> IResult<&'a [u8], N>>(
         forall|i: &'a [u8], r: IResult<&'a [u8], &'a [u8]>| #[trigger] g.ensures((i,), r) ==>
             exists|r0: IResult<&'a [u8], N>| #[trigger] f.ensures((i,), r0) && length_data_post(r0, r),
 { |i: &'a [u8]| -> IResult<&'a [u8], &'a [u8]> { unimplemented!() } }
+
+// ---------------------------------------------------------------------------------------------
+// Combinators over parsers-as-values.  `res_of(f, i)` is THE result of a deterministic, total
+// parser value f on input i; the combinator contracts below are stated over it, so a caller's
+// proof never sees an existential.
+//   complete(f): Incomplete -> Error(Complete), everything else passed through   [combinator/mod.rs]
+//   many1(f) / many0(f): the explicit accumulate-while-Ok loop, incl. the no-progress check  [multi/mod.rs]
+// ASSUMED here; OBLIGATIONS of Kani harnesses shim_complete / shim_many1 / shim_many0 (real nom,
+// a cheap element parser, bounded input).
+// ---------------------------------------------------------------------------------------------
+// fun_of(f): the mathematical function computed by the parser value f.  Parser values in this crate are
+// safe, state-free Rust (forbid(unsafe_code), no statics, no interior mutability), hence deterministic
+// functions of their input; that they terminate on every input is property C01 (checked by Kani).
+pub uninterp spec fn fun_of<'a, O, F: Fn(&'a [u8]) -> IResult<&'a [u8], O>>(f: F) -> spec_fn(&'a [u8]) -> IResult<&'a [u8], O>;
+
+// a parser never returns a remainder longer than its input
+pub open spec fn nongrowing<'a, O>(p: spec_fn(&'a [u8]) -> IResult<&'a [u8], O>) -> bool {
+    forall|j: &'a [u8]| (#[trigger] p(j)) is Ok ==> p(j)->Ok_0.0@.len() <= j@.len()
+}
+// f can be used as a combinator argument: callable on every input, results are those of fun_of(f), non-growing
+pub open spec fn is_fun<'a, O, F: Fn(&'a [u8]) -> IResult<&'a [u8], O>>(f: F) -> bool {
+    (forall|i: &'a [u8]| #[trigger] f.requires((i,)))
+    && (forall|i: &'a [u8], r: IResult<&'a [u8], O>| #[trigger] f.ensures((i,), r) ==> r == fun_of(f)(i))
+    && nongrowing(fun_of(f))
+}
+
+pub open spec fn complete_map<'a, O>(r0: IResult<&'a [u8], O>, i: &'a [u8]) -> IResult<&'a [u8], O> {
+    match r0 {
+        Err(Err::Incomplete(_)) => Err(Err::Error(Error { input: i, code: ErrorKind::Complete })),
+        _ => r0,
+    }
+}
+pub open spec fn completed<'a, O>(p: spec_fn(&'a [u8]) -> IResult<&'a [u8], O>) -> spec_fn(&'a [u8]) -> IResult<&'a [u8], O> {
+    |j: &'a [u8]| complete_map(p(j), j)
+}
+
+#[verifier::external_body]
+pub fn complete<'a, O, F: Fn(&'a [u8]) -> IResult<&'a [u8], O>>(f: F) -> (g: impl Fn(&'a [u8]) -> IResult<&'a [u8], O>)
+    requires is_fun(f),
+    ensures is_fun(g), fun_of(g) == completed(fun_of(f)),
+{ |i: &'a [u8]| -> IResult<&'a [u8], O> { unimplemented!() } }
+
+// the loop of many0 / many1 standing at input i with `acc` already collected
+pub open spec fn loop_from<'a, O>(p: spec_fn(&'a [u8]) -> IResult<&'a [u8], O>, i: &'a [u8], acc: Seq<O>, code: ErrorKind,
+                                  r: IResult<&'a [u8], Vec<O>>) -> bool
+    decreases i@.len()
+{
+    match p(i) {
+        Err(Err::Error(_)) => (match r { Ok((rem, v)) => rem@ == i@ && v@ == acc, Err(_) => false }),
+        Err(Err::Incomplete(n)) => r == Err::<(&[u8], Vec<O>), Err<Error<&[u8]>>>(Err::Incomplete(n)),
+        Err(Err::Failure(e)) => r == Err::<(&[u8], Vec<O>), Err<Error<&[u8]>>>(Err::Failure(e)),
+        Ok((i1, o)) =>
+            if i1@.len() == i@.len() { r == Err::<(&[u8], Vec<O>), Err<Error<&[u8]>>>(Err::Error(Error { input: i, code: code })) }
+            else if i1@.len() < i@.len() { loop_from(p, i1, acc.push(o), code, r) }
+            else { true },   // a parser that grows its input: outside nom's contract
+    }
+}
+pub open spec fn many1_post<'a, O>(p: spec_fn(&'a [u8]) -> IResult<&'a [u8], O>, i: &'a [u8], r: IResult<&'a [u8], Vec<O>>) -> bool {
+    match p(i) {
+        Err(e) => r == Err::<(&[u8], Vec<O>), Err<Error<&[u8]>>>(e),        // incl. Error: nom's Error::append keeps the inner error
+        Ok((i1, o)) => loop_from(p, i1, seq![o], ErrorKind::Many1, r),
+    }
+}
+pub open spec fn many0_post<'a, O>(p: spec_fn(&'a [u8]) -> IResult<&'a [u8], O>, i: &'a [u8], r: IResult<&'a [u8], Vec<O>>) -> bool {
+    loop_from(p, i, Seq::<O>::empty(), ErrorKind::Many0, r)
+}
+
+#[verifier::external_body]
+pub fn many1<'a, O, F: Fn(&'a [u8]) -> IResult<&'a [u8], O>>(f: F) -> (g: impl Fn(&'a [u8]) -> IResult<&'a [u8], Vec<O>>)
+    requires is_fun(f),
+    ensures
+        forall|i: &'a [u8]| #[trigger] g.requires((i,)),
+        forall|i: &'a [u8], r: IResult<&'a [u8], Vec<O>>| #[trigger] g.ensures((i,), r) ==> many1_post(fun_of(f), i, r),
+{ |i: &'a [u8]| -> IResult<&'a [u8], Vec<O>> { unimplemented!() } }
+
+#[verifier::external_body]
+pub fn many0<'a, O, F: Fn(&'a [u8]) -> IResult<&'a [u8], O>>(f: F) -> (g: impl Fn(&'a [u8]) -> IResult<&'a [u8], Vec<O>>)
+    requires is_fun(f),
+    ensures
+        forall|i: &'a [u8]| #[trigger] g.requires((i,)),
+        forall|i: &'a [u8], r: IResult<&'a [u8], Vec<O>>| #[trigger] g.ensures((i,), r) ==> many0_post(fun_of(f), i, r),
+{ |i: &'a [u8]| -> IResult<&'a [u8], Vec<O>> { unimplemented!() } }
+
+// nom::combinator::map_parser(f, g): run f, then g on f's OUTPUT; f's remainder is kept, g's remainder is
+// dropped, errors of either are propagated unchanged.      [combinator/mod.rs]
+// ASSUMED here; OBLIGATION of Kani harness shim_map_parser (real nom, cheap inner parser, bounded input).
+#[verifier::external_body]
+pub fn map_parser<'a, O2, F: Fn(&'a [u8]) -> IResult<&'a [u8], &'a [u8]>, G: Fn(&'a [u8]) -> IResult<&'a [u8], O2>>(f: F, g: G) -> (h: impl Fn(&'a [u8]) -> IResult<&'a [u8], O2>)
+    requires forall|i: &'a [u8]| #[trigger] f.requires((i,)), forall|i: &'a [u8]| #[trigger] g.requires((i,)),
+    ensures
+        forall|i: &'a [u8]| #[trigger] h.requires((i,)),
+        forall|i: &'a [u8], r: IResult<&'a [u8], O2>| #[trigger] h.ensures((i,), r) ==>
+            exists|r1: IResult<&'a [u8], &'a [u8]>| #[trigger] f.ensures((i,), r1) && match r1 {
+                Ok((rem, o1)) => exists|r2: IResult<&'a [u8], O2>| #[trigger] g.ensures((o1,), r2) && match r2 {
+                    Ok((_, o2)) => r == Ok::<(&'a [u8], O2), Err<Error<&'a [u8]>>>((rem, o2)),
+                    Err(e) => r == Err::<(&'a [u8], O2), Err<Error<&'a [u8]>>>(e),
+                },
+                Err(e) => r == Err::<(&'a [u8], O2), Err<Error<&'a [u8]>>>(e),
+            },
+{ |i: &'a [u8]| -> IResult<&'a [u8], O2> { unimplemented!() } }
